@@ -49,10 +49,9 @@ var c15Sections = []c15Sec{
 	{"leveldb", "datastore/leveldb", "config.go", "jsonConfig", "Config", "applyJSONConfig", "toJSONConfig", []string{"Default"}, "envConfigKey"},
 }
 
-// defaults of custom members (their Config representation is chosen by the hand transcription)
-var c15CustomDefaults = map[string]string{
-	"crdt.trusted_peers": `VL ["*"]`, // Default(): TrustAll = true, TrustedPeers = []
-}
+// defaults of custom members whose rule configcustoms.go does not translate (their Config representation is chosen by
+// the hand transcription). crdt.trusted_peers is translated: its default is computed from Default() (TrustAll, TrustedPeers).
+var c15CustomDefaults = map[string]string{}
 
 // library constructors whose result is a default block: module, file, function
 var c15ExtDefaults = map[string][3]string{
